@@ -77,8 +77,9 @@ def base_script(loop, rng, variant):
     return [(t0 + 0.0, t0 + 3.0, "blackout", 0)]
 
 
-def crash_run(variant, at_iteration, action, total=None, suspend=False):
-    """One run of the base scenario; `action` ('reset' | 'exit' | None) is started at event-loop pass number `at_iteration`."""
+def crash_run(variant, at_iteration, action, total=None, suspend=False, lost=False):
+    """One run of the base scenario; `action` ('reset' | 'exit' | None) is started at event-loop pass number `at_iteration`.
+    lost: two passes earlier the connection's datagram endpoint is lost (the transport reports connection_lost(OSError))."""
     import random
     rng = random.Random(7)
     fullstack.reset_config()
@@ -91,12 +92,21 @@ def crash_run(variant, at_iteration, action, total=None, suspend=False):
             stack_ref[0] = st
             fired = {}
             obs = []
+            out_lost = []
 
             def on_iteration(k):
+                if lost and k == at_iteration - 2 and action is not None and "lost" not in fired:
+                    fired["lost"] = []
+                    for tr in loop.endpoints:
+                        if not tr.closed and not tr.kw.get("allow_broadcast"):
+                            tr.closed, tr.closed_at = True, loop.time()
+                            fired["lost"].append(tr)
+                            tr.proto.connection_lost(OSError(101, "Network is unreachable"))
                 if k == at_iteration and action is not None and "t" not in fired:
                     fired["t"] = loop.time()
                     fired["state"] = st.man.spa_state.name
                     fired["eps"] = [tr for tr in loop.endpoints if not tr.closed and not tr.kw.get("allow_broadcast")]
+                    out_lost.append(len(fired.get("lost", [])))
                     fired["tasks"] = [t for t in asyncio.all_tasks(loop) if not t.done() and t.get_name().split(":")[0] in ("SPA", "FACADE")]
                     fired["old_spa"] = st.man._spa
                     fired["old_proto"] = st.man._spa._protocol if st.man._spa is not None else None
@@ -112,6 +122,7 @@ def crash_run(variant, at_iteration, action, total=None, suspend=False):
                 await asyncio.sleep(0.05)
             if "t" in fired:
                 out["fired"] = True
+                out["lost"] = sum(out_lost)
                 out["state_at"] = fired["state"]
                 out["t"] = fired["t"] - 1000
                 try:
@@ -231,7 +242,7 @@ def cobs(o):
 def run(ctx):
     ctx.rule = ("crash-point sweep on the REAL full stack (manager, locator, spa, facade, simulator; virtual time): three base runs (healthy connect + RF-error burst + self-initiated "
                 "reconnect; blackout right after discovery so that the handshake stalls; blackout during discovery) are repeated with a user reset, resp. a context exit, started "
-                "at event-loop pass k for k over the passes of the base run (quick: every 9th pass and every pass of the handshake window; thorough: every pass): 0.5 s after the "
+                "at event-loop pass k for k over the passes of the base run (quick: every 9th pass and every pass of the handshake window; thorough: every pass), also with a client whose handlers suspend and with the connection's socket lost (connection_lost(OSError)) two passes earlier: 0.5 s after the "
                 "action every endpoint and SPA / FACADE task of the abandoned connection must be closed / done; three late datagrams are then fed to the abandoned protocol object "
                 "and 3 s pass: no event of the abandoned spa object may reach the client; after exit nothing is open or alive; after a reset the manager must reconnect; "
                 "the model's accounting predicate is evaluated on every observed ledger; plus runs of consecutive reconnect cycles under faults; "
@@ -246,16 +257,17 @@ def run(ctx):
         # the handshake happens in a short burst of passes after discovery (virtual second 4..5): take them all
         if not ctx.thorough:
             ks |= set(range(max(1, int(total * 0.15)), int(total * 0.26), 2))
-        for action in ("reset", "exit", "reset+suspending-client", "exit+suspending-client"):
+        for action in ("reset", "exit", "reset+suspending-client", "exit+suspending-client", "reset+socket-lost", "exit+socket-lost"):
             susp = action.endswith("client")
+            lost = action.endswith("lost")
             action = action.split("+")[0]
-            for k in sorted(ks if not susp else {x for x in ks if x % 3 == 0}):
-                r = crash_run(variant, k, action, suspend=susp)
+            for k in sorted(ks if not (susp or lost) else {x for x in ks if x % 3 == (0 if susp else 1)}):
+                r = crash_run(variant, k, action, suspend=susp, lost=lost)
                 if not r["fired"]:
                     continue
-                ctx.case((variant, action, k, susp), nontrivial=r["state_at"] not in ("IDLE", "CONNECTED"))
-                ctx.count("crash:%s:%s%s" % (action, r["state_at"], ":suspending_client" if susp else ""))
-                replay = {"variant": variant, "action": action, "event_loop_pass": k, "virtual_time": round(r["t"], 3), "state_at_crash": r["state_at"]}
+                ctx.case((variant, action, k, susp, lost), nontrivial=r["state_at"] not in ("IDLE", "CONNECTED"))
+                ctx.count("crash:%s:%s%s%s" % (action, r["state_at"], ":suspending_client" if susp else "", ":socket_lost" if lost and r["lost"] else ""))
+                replay = {"variant": variant, "action": action, "event_loop_pass": k, "virtual_time": round(r["t"], 3), "state_at_crash": r["state_at"], "socket_lost_two_passes_earlier": bool(lost and r["lost"])}
                 if r["action_done"] is not True:
                     ctx.fail("ledger:%s_raised:%s" % (action, r["state_at"]), "%s at pass %d (%s) did not complete: %s" % (action, k, r["state_at"], r["action_done"]), replay)
                 if r["eps_left"]:
